@@ -46,6 +46,13 @@ pub struct Own<T>(pub T);
 unsafe impl<T> Send for Own<T> {}
 unsafe impl<T> Sync for Own<T> {}
 
+/// whether the read-only `warm` queries are issued before each step (default) - a query between two writes can HEAL hidden state (a lazily
+/// invalidated flag re-validated by the query), so the clone-free exploration is also run without them (round 16)
+pub static WARM: std::sync::atomic::AtomicBool = std::sync::atomic::AtomicBool::new(true);
+fn warm_on() -> bool {
+    WARM.load(std::sync::atomic::Ordering::SeqCst)
+}
+
 pub struct BfsOpts {
     pub max_depth: usize,
     pub state_cap: u64,
@@ -84,7 +91,9 @@ pub fn replay_path<S: Sut>(init: &S, path: &[u64]) -> (Vec<String>, Result<S, St
         names.push(format!("{:?}", a));
         let mut hits = vec![];
         // clone-free: the whole path runs on one object
-        let _ = catch(|| s.warm());
+        if warm_on() {
+                let _ = catch(|| s.warm());
+            }
         let res = catch(|| s.step(&a, &mut hits));
         match res {
             Ok(Ok(())) => {}
@@ -185,7 +194,9 @@ pub fn explore<S: Sut>(ctx: &Ctx, name: &str, inits: Vec<S>, opts: BfsOpts) {
                     for (ai, a) in acts.iter().enumerate() {
                         let mut n = s.clone();
                         let mut h: Vec<&'static str> = vec![];
-                        let _ = catch(|| n.warm());
+                        if warm_on() {
+                let _ = catch(|| n.warm());
+            }
                         let res = catch(|| n.step(a, &mut h));
                         let r = match res {
                             Ok(Ok(())) => {
@@ -329,7 +340,9 @@ pub fn explore_replayed<S: Sut>(ctx: &Ctx, name: &str, inits: Vec<S>, opts: BfsO
         for &ai in path {
             let acts = s.actions();
             let a = acts.get(ai as usize)?.clone();
-            let _ = catch(|| s.warm());
+            if warm_on() {
+                let _ = catch(|| s.warm());
+            }
             let mut h = vec![];
             match catch(|| s.step(&a, &mut h)) {
                 Ok(Ok(())) => {}
@@ -378,7 +391,9 @@ pub fn explore_replayed<S: Sut>(ctx: &Ctx, name: &str, inits: Vec<S>, opts: BfsO
                         };
                         let acts = s.actions();
                         let a = acts[ai].clone();
-                        let _ = catch(|| s.warm());
+                        if warm_on() {
+                let _ = catch(|| s.warm());
+            }
                         let mut h: Vec<&'static str> = vec![];
                         let r = match catch(|| s.step(&a, &mut h)) {
                             Ok(Ok(())) => Ok(s.key()),
@@ -507,7 +522,9 @@ impl<S: Sut + 'static> Model for SrModel<S> {
         let act = acts[a.0].clone();
         let mut n = st.s.clone();
         let mut h = vec![];
-        let _ = catch(|| n.warm());
+        if warm_on() {
+                let _ = catch(|| n.warm());
+            }
         let res = catch(|| n.step(&act, &mut h));
         match res {
             Ok(Ok(())) => Some(SrState { s: n, bad: None }),
